@@ -500,6 +500,12 @@ class Module(HasAccessibles):
         else:
             # value given explicitly, either by cfg or as Parameter argument
             pobj.given = True  # for PersistentMixin
+            if isinstance(pobj, Limit):
+                # the datatype of a limit is known only now: check the given value (e.g. inverted limits)
+                try:
+                    pobj.datatype.validate(pobj.value)
+                except BadValueError as e:
+                    self.errors.append(f'{pname}: {e}')
             if hasattr(self, 'write_' + pname):
                 self.writeDict[pname] = pobj.value
             if pobj.default is None:
